@@ -219,6 +219,11 @@ def gen_split_cases(rnd, tier, pre):
     n = 10 if tier == "quick" else 60
     reqs = [[COOKIE + b"=" + rand_value(rnd)] for _ in range(n)]
     cases.append(split_case("sweep", [], allp, reqs, ["plain"] * n))
+    # the same decisions made by several goroutines at once (a client stays on its side whatever else is being decided)
+    creqs = [[COOKIE + b"=" + rand_value(rnd)] for _ in range(24)] + [[COOKIE + b"=" + pre.find(T(p))] for p in (10, 50, 90)]
+    cc = split_case("concurrent", [], [50, 10, 90, 33], creqs, ["plain"] * len(creqs))
+    cc["concurrent"] = True
+    cases.append(cc)
     # structured and malformed streams
     n_struct, n_mal, nreq = (60, 40, 16) if tier == "quick" else (700, 450, 24)
     for stream, count in (("structured", n_struct), ("malformed", n_mal)):
@@ -409,6 +414,10 @@ def run(tier, seed):
         if harness_ok and len(obs) != len(cases):
             harness_ok = False
         res.coverage["assumptions_by_theorem"] = assumptions_by_theorem("C10.v", pa)
+        par_bad = [(j, po) for j, (c, o) in enumerate(zip(cases, obs)) if c.get("concurrent") for po in o.get("per", [])
+                   if po.get("concurrent_mismatches", 0) > 0]
+        res.coverage["concurrent_decisions"] = {"decisions": sum(po.get("concurrent_decisions", 0) for c, o in zip(cases, obs) if c.get("concurrent")
+                                                                 for po in o.get("per", [])), "differing_from_the_sequential_decision": sum(po["concurrent_mismatches"] for _, po in par_bad)}
         failing = []
         if harness_ok and ok:
             jobs, cur, size, start = [], [], 0, 0
@@ -522,7 +531,13 @@ def run(tier, seed):
         mon_fail = [f for f in failing if not f[2]]
         new_fail = mon_fail
         disagree = [f for f in failing if f[2] and not f[1]]
-        if new_fail:
+        if par_bad and not new_fail:
+            j, po = par_bad[0]
+            res.violation("concurrent-%d" % j, {"property": "C10", "seed": seed, "tier": tier,
+                                               "what": "the split decision is not a function of the cookie value: decided by several goroutines at once, a "
+                                                       "value landed on another side than the one just decided for it sequentially (stickiness, props/C10.v c10_sticky)",
+                                               "case": {k: v for k, v in cases[j].items() if not k.startswith("_")}, "observed": po})
+        elif new_fail:
             j = new_fail[0][0]
             c = {k: v for k, v in cases[j].items() if not k.startswith("_")}
             res.violation("monitor-%d" % j, {"property": "C10", "what": "monitor false on an implementation trace",
